@@ -1,6 +1,7 @@
 import PlumpyModel.Futures.Proof
 import PlumpyModel.Futures.ProofMirror
 import PlumpyModel.Futures.ProofAction
+import PlumpyModel.Futures.ProofTask
 /-!
 # C20 — future adapters deliver result, error or cancellation exactly once
 -/
@@ -167,5 +168,31 @@ theorem C20_action_reports_through_itself (s0 : State) (fn : Call) :
     · have hx' : e.isException = false := by simpa using hx
       have t := this.2 hx'
       exact ⟨t.2.2.1, by rw [← he]; exact t.2.2.2, fun h => by rw [hx'] at h; simp at h, fun _ => ⟨t.1, t.2.1⟩⟩
+
+/-- **C20, `create_task`** -/
+theorem C20_create_task_captures (N : Nat) (d : FId → St) (hd : ∀ f, N ≤ f → d f = .pending) (c : Coro) (hc : c.wf N)
+    (pre post : List Ev) (fuel : Nat) :
+    let s1 := envRun d fuel (newFutures .aio N {}) pre
+    let fut := (createTask s1 c).2
+    let s3 := envRun d fuel (createTask s1 c).1 post
+    s3.errs = [] ∧ s3.fuelOut = false ∧
+    (s3.st fut = .pending ∨ s3.st fut = taskRef s3.st c) ∧
+    (s3.ready = [] → s3.st fut = taskRef s3.st c) ∧
+    (s3.st fut = .pending → s3.sets.count fut = 0) ∧ (s3.st fut ≠ .pending → s3.sets.count fut = 1) := by
+  intro s1 fut s3
+  have hpre : EPre N d s1 := epre_envRun hd fuel pre _ (epre_init N d)
+  obtain ⟨hf, hinv⟩ := task_wrap c hpre
+  obtain ⟨hb, hpos⟩ : TInv N d c s3 := task_envRun hc hd fuel post _ hinv
+  have hf' : fut = N := hf
+  rw [hf']
+  rcases hpos with ⟨hl, hr, _⟩ | ⟨f, k, hl, haw, hfN, hpf, _, _, hr⟩ | ⟨f, k, hl, hfN, hr, _⟩ | ⟨_, hr, _, _, hst, hu1, hu2⟩
+  · refine ⟨hb.errs, hb.fuel, .inl hl.fpend, fun h => by simp [hr] at h, fun _ => List.count_eq_zero.mpr hl.unset,
+      fun h => absurd hl.fpend h⟩
+  · have hp : taskRef s3.st c = .pending := by rw [hl.passed.taskRef_eq]; exact taskRef_awaiting haw hpf
+    refine ⟨hb.errs, hb.fuel, .inl hl.fpend, fun _ => by rw [hp]; exact hl.fpend,
+      fun _ => List.count_eq_zero.mpr hl.unset, fun h => absurd hl.fpend h⟩
+  · refine ⟨hb.errs, hb.fuel, .inl hl.fpend, fun h => by simp [hr] at h, fun _ => List.count_eq_zero.mpr hl.unset,
+      fun h => absurd hl.fpend h⟩
+  · exact ⟨hb.errs, hb.fuel, .inr hst, fun _ => hst, fun h => List.count_eq_zero.mpr (hu1 h), hu2⟩
 
 end Futures
